@@ -360,6 +360,37 @@ func gen(g *vh.Gen) {
 		fl, init, evs := genSession(g, i, big)
 		g.Emit("sess", fl, init, evs)
 	}
+	// byte-level fuzz of the command front end: lines assembled from fragments that matter to
+	// Split / ToUpper / ParseInt / TrimRight, after a login on a 3-message mailbox
+	frags := []string{"LIST", "list", "UIDL", "DELE", "dele", "RETR", "TOP", "STAT", "RSET", "QUIT", "quit", "NOOP", "CAPA", "capa", "USER", "APOP",
+		"l\u0131st", "l\u0131\u017ft", "qu\u0131t", "\u017ftat", "\u017fTAT", "\u212a", "\xc4", "\xb1", "\xc5", "\xbf", "\xc4\xb1", "\xff", "\x00", "\xe2\x84\xaa",
+		" ", " ", " ", "  ", "\t", "\r", "\r\r", "1", "2", "3", "4", "0", "-1", "+2", "03", "2147483647", "2147483648", "-2147483648", "x", "1 1", "", "", "I", "i", "S", "s"}
+	fuzzInit := vh.HS("bob") + ":" + vh.HS("A: 1\r\n\r\nx\r\n.y\r\n") + "." + vh.HS("B: 2\r\n\r\n") + "." + vh.HS("no header end\r\n..\r\n")
+	for i := 0; i < g.N(800, 20000); i++ {
+		evs := []string{"c" + vh.HS("APOP bob x\r\n")}
+		nl := 1 + g.Intn(8)
+		for j := 0; j < nl; j++ {
+			var l string
+			for k, nf := 0, 1+g.Intn(4); k < nf; k++ {
+				l += g.Pick(frags...)
+				if g.Chance(0.5) {
+					l += " "
+				}
+			}
+			if g.Chance(0.02) {
+				l = "LIST " + strings.Repeat("0", 5000+g.Intn(4000)) + "2" // longer than the bufio buffer
+			}
+			evs = append(evs, "c"+vh.HS(l+g.Pick("\r\n", "\r\n", "\n", "\r\r\n")))
+		}
+		if g.Chance(0.5) {
+			evs = append(evs, "c"+vh.HS("LIST\r\n"), "c"+vh.HS("QUIT\r\n"))
+		}
+		fl := "mem"
+		if i%2 == 1 {
+			fl = "file"
+		}
+		g.Emit("sess", fl, fuzzInit, strings.Join(evs, ","))
+	}
 	// exhaustive small dialogues: every pair of transaction commands on a 2-message mailbox
 	cmds := []string{"STAT", "LIST", "LIST 1", "LIST 2", "LIST 3", "UIDL", "UIDL 2", "DELE 1", "DELE 2", "DELE 0", "RETR 1", "RETR 3",
 		"TOP 2 1", "TOP 1 0", "RSET", "NOOP", "QUIT", "CAPA", "USER a", ""}
